@@ -129,7 +129,8 @@ class ApiPart(StorePart):
         n = 150 if tier == "quick" else 4000
         # ... and values published by providers through kuksa.val.v2 OpenProviderStream on the real server
         return [("a%d" % i, H.gen_history(rng, H.W_API, plain_meta=0.6)) for i in range(n)] + \
-               [("st%d" % i, H.stream_scenario(rng)) for i in range(n // 5)]
+               [("st%d" % i, H.stream_scenario(rng)) for i in range(n // 5)] + \
+               [("cs%d" % i, H.client_stream_scenario(rng)) for i in range(n // 4)]
 
     @staticmethod
     def histogram(lines, out):
